@@ -268,6 +268,49 @@ func (fr *faultRun) ping(f *fClient) string {
 	}
 }
 
+// probe: the witness publisher publishes on the topic of P and S; every client that is subscribed to it, still
+// connected and reading must receive the message - whoever else was subscribed and has gone, however it went
+func (fr *faultRun) probe(selfsub bool) string {
+	fr.seq++
+	payload := []byte(fmt.Sprintf("probe-%d", fr.seq))
+	var want []*fClient
+	for _, name := range []string{"S", "P"} {
+		b := fr.cl[name]
+		if b == nil || b.cut || atomic.LoadInt32(&b.closed) == 1 || atomic.LoadInt32(&b.reading) == 0 || (name == "P" && !selfsub) {
+			continue
+		}
+		for len(b.rx) > 0 {
+			<-b.rx
+		}
+		want = append(want, b)
+	}
+	if len(want) == 0 {
+		return ""
+	}
+	if err := fr.write(fr.cl["W1"], pkt(0x30, append(lp([]byte("t")), payload...)), 3*time.Second); err != nil {
+		return ""
+	}
+	for _, b := range want {
+		deadline := time.After(faultDeadline)
+		got := false
+		for !got {
+			select {
+			case p := <-b.rx:
+				if p.first>>4 == 3 && bytes.HasSuffix(p.body, payload) {
+					got = true
+				}
+			case <-deadline:
+				if atomic.LoadInt32(&b.closed) == 1 {
+					got = true // closed for a reason of its own
+					break
+				}
+				return fmt.Sprintf("client %s is subscribed to the topic, connected and reading, but a message published on it by a third client does not arrive within %v (nobody who stopped reading is left)", b.name, faultDeadline)
+			}
+		}
+	}
+	return ""
+}
+
 func waitStop(svc uint64, d time.Duration) bool {
 	select {
 	case <-bev.stopCh(svc):
@@ -299,7 +342,18 @@ func libraryGoroutines() (int, string) {
 var faultDeadline = 6 * time.Second
 
 // runFaults executes one fault sequence; returns (mismatch, tag)
-func runFaults(sc *fScenario) (string, string) {
+// faultsOwn: the property whose check is running ("" = any). An observation of another property made in the middle of
+// a step does not end the sequence: the rest of the step's expectations (which may be the running property's) is
+// still evaluated, and the foreign observation is returned only if nothing of its own turns up.
+var faultsOwn string
+
+func runFaults(sc *fScenario) (d string, tag string) {
+	foreignD, foreignT := "", ""
+	defer func() {
+		if d == "" && foreignD != "" {
+			d, tag = foreignD, foreignT
+		}
+	}()
 	base, _ := libraryGoroutines()
 	r := newBrokerRun("mockSuccess", 2)
 	fr := &faultRun{r: r, cl: map[string]*fClient{}, wills: map[string]int{}, never: map[string]bool{}}
@@ -354,6 +408,10 @@ func runFaults(sc *fScenario) (string, string) {
 			time.Sleep(5 * time.Millisecond)
 		case "resume":
 			atomic.StoreInt32(&f.reading, 1)
+		case "pipeline-subscribe":
+			// a SUBSCRIBE written while the client does not read (its SUBACK finds the client's own ring full)
+			fr.write(f, pkt(0x82, append([]byte{0, 9}, append(lp([]byte("extra/1")), 0)...)), 250*time.Millisecond)
+			fr.settle(f)
 		case "pipeline-bad", "pipeline-disconnect":
 			// an ending packet with plenty of data behind it, written while the broker has stopped
 			// reading this connection (writes that do not get through are dropped)
@@ -485,8 +543,14 @@ func runFaults(sc *fScenario) (string, string) {
 		if f != nil && st.Free && (st.A == "cut" || st.Gone) && f.svc != 0 {
 			if !waitStop(f.svc, faultDeadline) {
 				n, first := libraryGoroutines()
-				return fmt.Sprintf("%s: no open connection has stopped reading, but the teardown of %s did not finish within %v (%d library goroutines, e.g. %s)",
-					where, st.C, faultDeadline, n-base, short(first, 300)), "C16"
+				dd := fmt.Sprintf("%s: no open connection has stopped reading, but the teardown of %s did not finish within %v (%d library goroutines, e.g. %s)",
+					where, st.C, faultDeadline, n-base, short(first, 300))
+				if faultsOwn == "" || faultsOwn == "C16" {
+					return dd, "C16"
+				}
+				if foreignD == "" {
+					foreignD, foreignT = dd, "C16"
+				}
 			}
 		}
 		if st.Will == "never" {
@@ -516,6 +580,9 @@ func runFaults(sc *fScenario) (string, string) {
 						return fmt.Sprintf("%s: %s", where, d), "C05"
 					}
 				}
+				if d := fr.probe(st.SelfSub); d != "" {
+					return fmt.Sprintf("%s: %s", where, d), "C05"
+				}
 			}
 		}
 	}
@@ -533,6 +600,19 @@ func runFaults(sc *fScenario) (string, string) {
 		if f != nil && f.svc != 0 && !waitStop(f.svc, faultDeadline) {
 			n, first := libraryGoroutines()
 			return fmt.Sprintf("end: every client is gone, but the teardown of %s did not finish within %v (%d library goroutines, e.g. %s)", name, faultDeadline, n-base, short(first, 300)), "C16"
+		}
+	}
+	// every connection is gone and torn down: nothing of them is left in the subscription tree or the session store
+	if !fr.closedS {
+		for _, t := range []string{"t", "u", "w/1", "w/will/P", "w/will/S", "extra/1"} {
+			var subs []interface{}
+			var qoss []byte
+			if err := r.tp.Subscribers([]byte(t), 2, &subs, &qoss); err == nil && len(subs) > 0 {
+				return fmt.Sprintf("end: every connection has been torn down, but %d subscription(s) matching %q are still in the subscription tree", len(subs), t), "C16"
+			}
+		}
+		if n := r.sp.Count(); n != 0 {
+			return fmt.Sprintf("end: every connection has been torn down (all with CleanSession 1), but the session store holds %d session(s)", n), "C16"
 		}
 	}
 	if !fr.closedS {
@@ -658,6 +738,7 @@ func cmdFaults(a Args) {
 	res := newResult()
 	maxKeptMismatches = 40
 	own := a.str("own", "")
+	faultsOwn = own
 	err := readLines(a, func(line []byte) error {
 		var sc fScenario
 		if err := json.Unmarshal(line, &sc); err != nil {
